@@ -105,8 +105,16 @@ class ServiceRegistry:
             if old_service_info is None:
                 continue
             assert old_service_info.server_key is not None
-            self.types[old_service_info.type.lower()].remove(info.key)
-            self.servers[old_service_info.server_key].remove(info.key)
+            # Drop index entries that become empty, otherwise a type whose last
+            # instance is gone stays listed in async_get_types() and keeps being
+            # offered in service type enumeration answers.
+            for index, index_key in (
+                (self.types, old_service_info.type.lower()),
+                (self.servers, old_service_info.server_key),
+            ):
+                index[index_key].remove(info.key)
+                if not index[index_key]:
+                    del index[index_key]
             del self._services[info.key]
 
         self.has_entries = bool(self._services)
